@@ -312,7 +312,7 @@ package bbolt
 //@ func (*DB).beginRWTx
 //@   returns (t, err)
 //@   props C03 C10 C17 C02
-//@   requires db.readOnly || (!db.rwlock.held && !db.metalock.held)
+//@   requires !db.metalock.held && (db.readOnly || !db.rwlock.held)
 //@   requires !db.readOnly && db.opened && db.data != nil ==> db.meta0 != nil && db.meta1 != nil && (metavalid(db.meta0) || metavalid(db.meta1)) && dbmeta(db).txid < 18446744073709551615 && db.freelist != nil
 //@   ensures [readonly] db.readOnly ==> err == berrors.ErrDatabaseReadOnly && t == nil && calls("sync.(*Mutex).Lock", db.rwlock) == old(calls("sync.(*Mutex).Lock", db.rwlock))
 //@   ensures [notopen] !db.readOnly && !db.opened ==> err == berrors.ErrDatabaseNotOpen
@@ -321,7 +321,7 @@ package bbolt
 //@   ensures [locked] err == nil ==> db.rwlock.held && db.rwtx == t && t != nil && t.writable && t.db == db && fresh(t)
 //@   ensures [txid] err == nil ==> t.meta != nil && t.meta.txid == old(dbmeta(db).txid) + 1
 //@   ensures [released] err == nil ==> calls("freelist.Interface.ReleasePendingPages", db.freelist) == old(calls("freelist.Interface.ReleasePendingPages", db.freelist)) + 1
-//@   ensures [metalock] db.readOnly || !db.metalock.held
+//@   ensures [metalock] !db.metalock.held
 
 //@ func (*DB).beginTx
 //@   returns (t, err)
@@ -365,3 +365,11 @@ package bbolt
 //@   requires t.db != nil && !t.writable ==> t.db.mmaplock.rcount >= 1 && t.meta != nil && !t.db.metalock.held
 //@   ensures [rollback] old(t.db) != nil ==> calls("(*Tx).rollback", t) == old(calls("(*Tx).rollback", t)) + 1 && t.db == nil
 //@   ensures [noop] old(t.db) == nil ==> calls("(*Tx).rollback", t) == old(calls("(*Tx).rollback", t))
+
+//@ func (*DB).Update
+//@   props C03 C08 C16
+//@   requires canbegin(db)
+//@   callback ensures t.db == db && t.writable && t.meta != nil && t.root.tx == t && db.rwtx == t && db.freelist != nil && mapok(t) && !db.metalock.held
+//@   callback ensures db.pageSize >= 512 && db.pageSize <= 16777216 && t.meta.magic == common.Magic && t.meta.version == common.Version && (t.meta.pgid + 8589934592) * db.pageSize <= 2305843009213693952 && db.AllocSize >= 0 && db.AllocSize <= 2305843009213693952 && db.datasz >= 0 && db.MaxSize >= 0 && (t.meta.pgid + 1) * db.pageSize <= db.datasz && db.datasz <= common.MaxMapSize && (db.NoSync || unsynced == 0) && !db.StrictMode
+//@   ensures [unlocked] !db.rwlock.held || db.readOnly
+//@   ensures [readonlydb] db.readOnly ==> result == berrors.ErrDatabaseReadOnly
